@@ -177,8 +177,9 @@ def run(tier):
     # ill-typed renditions of the maintainers' own examples: every call of every example file loses its
     # arguments / gets a constant of the wrong kind / nil / an undefined name / one argument too many ...
     # A checker that recognises an API by name and then trusts what the compiler would have enforced panics.
-    kinds_all = ["noargs", "droplast", "intfirst", "nilfirst", "extra", "undeffirst", "strlits", "noimports", "swapargs", "callfirst"]
-    kinds = kinds_all if tier == "thorough" else kinds_all[:4] + vlib.rng("c19ill").sample(kinds_all[4:], 2)
+    kinds_all = ["noargs", "droplast", "intfirst", "nilfirst", "extra", "undeffirst", "strlits", "noimports", "swapargs", "callfirst",
+                 "undeftypes", "undefsel", "undeffun", "nobodies", "noresults", "extrarhs", "noelts", "undefelts"]
+    kinds = kinds_all if tier == "thorough" else kinds_all[:4] + vlib.rng("c19ill").sample(kinds_all[4:], 3)
     ipf = os.path.join(work, "illpats")
     rc, so, se = vlib.sh([vw, "illtype", "-repo", vlib.REPO, "-ws", ws, "-kinds", ",".join(kinds), "-patterns", ipf], timeout=600)
     if rc != 0:
@@ -234,7 +235,7 @@ def run(tier):
         "ill_typed_checker_file_runs": res.counts.get("ill_checker_file_runs", 0),
         "ill_typed_kinds": kinds,
         "distinct_nontrivial": len(res.sets.get("cases", ())),
-        "rule": "fault alphabet = %d invalid configurations x 4 binaries x package counts %s, plus %d broken target packages (syntax/type/import/mixed-clause/duplicate/cycle/empty) alone and mixed with healthy ones, plus the maintainers' examples of every checker made ill-typed in up to ten ways (all calls without arguments, without the last one, with 42 / nil / an undefined name / a multi-value call first, one argument too many, swapped, numeric literals turned into strings, imports removed), every checker run over every such file under recover and a sample through the real command; "
+        "rule": "fault alphabet = %d invalid configurations x 4 binaries x package counts %s, plus %d broken target packages (syntax/type/import/mixed-clause/duplicate/cycle/empty) alone and mixed with healthy ones, plus the maintainers' examples of every checker made ill-typed in up to eighteen ways (all calls without arguments, without the last one, with 42 / nil / an undefined name / a multi-value call first, one argument too many, swapped, numeric literals turned into strings, imports removed, undefined types / selectors / callees / literal elements, functions without bodies, returns without results, one right-hand side too many), every checker run over every such file under recover and a sample through the real command; "
                 "oracle = non-zero status + message naming the problem + no panic/goroutine trace + no diagnostics + same behaviour for every package count; "
                 "distinct_nontrivial = distinct (kind, binary, configuration or broken target) cases" % (len(bad_cli), counts, len(BROKEN)),
         "analyzer_reentry_passes": res.counts.get("parallel_passes", 0),
